@@ -224,6 +224,7 @@ type schedStats struct {
 	Diverged     int64            `json:"replay_divergences"`
 	Capped       bool             `json:"capped"`
 	EnvDeviation int64            `json:"executions_with_non_default_pool_answer"`
+	Sample       []string         `json:"sample_execution"`
 }
 
 type schedViolation struct {
@@ -256,6 +257,9 @@ func (a *schedStats) merge(b *schedStats) {
 	a.Diverged += b.Diverged
 	a.Capped = a.Capped || b.Capped
 	a.EnvDeviation += b.EnvDeviation
+	if len(b.Sample) > len(a.Sample) {
+		a.Sample = b.Sample
+	}
 }
 
 func newSchedStats() *schedStats {
@@ -430,6 +434,9 @@ func CheckC14(r *Report) {
 			phase[name] = map[string]any{"scenarios": len(scenarios), "executions": tot.Executions, "schedule_points": tot.Points, "max_executions_in_one_scenario": maxPer,
 				"preemption_bound": bound, "max_preemptions_seen": tot.MaxPreempt, "final_pool_size_variants": len(tot.PoolSizes), "replay_divergences": tot.Diverged}
 			total.merge(tot)
+			if len(tot.Sample) > 0 {
+				r.Sample(map[string]any{"phase": name, "execution": tot.Sample})
+			}
 			for _, v := range tot.Violations {
 				ch := make([]string, len(v.Prefix))
 				for i, c := range v.Prefix {
@@ -611,8 +618,7 @@ func CheckC14(r *Report) {
 		r.Transitions.Store(1)
 	}
 	r.Exhaustive = false
-	r.Bound = "complete (no preemption bound) for 2 threads x 1 call and sequential histories to the stated depth; 2 threads x 2 calls and 3 threads x 1 call: preemption bound 2 (quick) / complete (thorough); 4 threads: preemption bound 2 (thorough); scheduling points at sync.Pool operations only, sequentially consistent interleavings"
-	r.Sample(map[string]any{"scenario": "v2.Parse(14) || v2.Parse(6)", "choice_sequence": "0 = default at every decision (thread 0 runs to completion, pool answers LIFO); alternatives enumerated by DFS"})
+	r.Bound = "see phases: complete (no preemption bound) for 2 threads x 1 call of light bodies and for sequential histories to the stated depth; preemption-bounded elsewhere (bounds per phase; thorough raises them and completes 2x2 and 3x1); scheduling points at every sync and sync/atomic operation, in the fine-grained phases also at every loop head of the instrumented files; sequentially consistent interleavings"
 	r.Assumptions = []string{"the only shared mutable state reachable from the API is behind package sync (unsynchronised sharing is looked for by the -race side pass, which is a detector run, not an enumeration)", "memory model: sequentially consistent interleavings at sync operations"}
 }
 
